@@ -11,7 +11,7 @@ class Recorder:
 
     def __init__(self, prop, tier, seed):
         self.prop = prop; self.tier = tier; self.seed = seed; self.rng = random.Random(seed)
-        self.calls = []; self.notes = []; self.assumptions = []; self.broken = []; self.extra = {}
+        self.calls = []; self.notes = []; self.assumptions = []; self.broken = []; self.extra = {}; self.samples = []
 
     def violation(self, *a, **k):
         self.calls.append(('violation', a, k))
@@ -72,7 +72,7 @@ def merge(run, rec):
         return
     for name, a, k in rec['calls']:
         getattr(run, name)(*a, **k)
-    for nm in ('notes', 'assumptions', 'broken'):
+    for nm in ('notes', 'assumptions', 'broken', 'samples'):
         for x in rec[nm]:
             if x not in getattr(run, nm):
                 getattr(run, nm).append(x)
@@ -95,10 +95,60 @@ def _main(inp, out):
         payload = getattr(mod, job['func'])(rec, **job['args'])
     except Exception:
         rec.broken.append('%s.%s crashed in the child process: %s' % (job['module'], job['func'], traceback.format_exc()[-2000:]))
-    pickle.dump(dict(recorder=dict(calls=rec.calls, notes=rec.notes, assumptions=rec.assumptions, broken=rec.broken, extra=rec.extra), payload=payload), open(out, 'wb'))
+    pickle.dump(dict(recorder=dict(calls=rec.calls, notes=rec.notes, assumptions=rec.assumptions, broken=rec.broken, extra=rec.extra, samples=rec.samples[:12]), payload=payload), open(out, 'wb'))
     sys.stdout.flush()
     os._exit(0)          # skip interpreter tear-down (a corrupted heap that did not crash yet must not turn a finished run into a crash report twice)
 
 
 if __name__ == '__main__':
     _main(sys.argv[1], sys.argv[2])
+
+
+class Distinct:
+    """counts the DISTINCT argument tuples the functions under test receive (evidence: distinct_nontrivial is measured, not assumed):
+    the real function is wrapped, a digest of its arguments is recorded, the call goes through unchanged"""
+
+    def __init__(self):
+        import collections
+        self.seen = collections.defaultdict(set); self.saved = []
+
+    def digest(self, x):
+        import hashlib
+        import numpy as np
+        try:
+            import pandas as pd
+        except Exception:
+            pd = None
+        if isinstance(x, np.ndarray):
+            try:
+                return ('nd', x.shape, str(x.dtype), hashlib.sha1(np.ascontiguousarray(x).tobytes()).hexdigest())
+            except Exception:
+                return ('nd', x.shape, repr(x)[:200])
+        if pd is not None and isinstance(x, (pd.Series, pd.DataFrame, pd.Index)):
+            return ('pd', type(x).__name__, self.digest(np.asarray(x)), self.digest(np.asarray(getattr(x, 'index', []))))
+        if isinstance(x, (list, tuple)):
+            return tuple(self.digest(e) for e in x)
+        if isinstance(x, dict):
+            return tuple(sorted((str(k), self.digest(v)) for k, v in x.items()))
+        if hasattr(x, 'data') and hasattr(x, 'ncols'):
+            return ('grid', int(x.nrows), int(x.ncols), float(x.cellsize), float(x.xllcorner), float(x.yllcorner), self.digest(x.data))
+        return repr(x)[:300]
+
+    def wrap(self, obj, name, label=None):
+        real = getattr(obj, name); label = label or name; outer = self
+
+        def w(*a, **k):
+            outer.seen[label].add(outer.digest((a, k)))
+            return real(*a, **k)
+        w.__wrapped__ = real
+        self.saved.append((obj, name, real))
+        setattr(obj, name, w)
+        return self
+
+    def restore(self):
+        for obj, name, real in reversed(self.saved):
+            setattr(obj, name, real)
+        self.saved = []
+
+    def n(self, *labels):
+        return sum(len(self.seen[l]) for l in labels)
